@@ -12,7 +12,7 @@ from ..ref import cfdp as R
 from ..ref import pus as RP
 from ..ref import uslp as RU
 from ..strategies import hexblob, name, uint
-from . import c02, c03, c17
+from . import c02, c03, c07, c17
 
 
 def u32():
@@ -86,6 +86,7 @@ class PduMachine(HistorySpec):
             ops["set_condition_code"] = st.sampled_from(M.CONDITION_CODES)
         elif k == "metadata":
             ops["set_options"] = st.one_of(st.none(), st.lists(M.st_option_tlv(), min_size=1, max_size=3))
+            ops["append_option_in_place_and_set_again"] = M.st_option_tlv()
             ops["set_source_file_name"] = st.one_of(st.none(), name(24, min_chars=1))
             ops["set_dest_file_name"] = st.one_of(st.none(), name(24, min_chars=1))
         elif k == "nak":
@@ -130,6 +131,14 @@ class PduMachine(HistorySpec):
         elif name == "set_options":
             o.options = None if a is None else [M.build_tlv(t) for t in a]
             m["options"] = a
+        elif name == "append_option_in_place_and_set_again":
+            # the caller keeps ONE list: takes what the PDU holds, appends to it in place, hands the same list object to the documented setter
+            held = o.options
+            if held is None:
+                held = []
+            held.append(M.build_tlv(a))
+            o.options = held
+            m["options"] = list(m.get("options") or []) + [a]
         elif name == "set_source_file_name":
             o.source_file_name = a
             m["src_name"] = a
@@ -489,6 +498,17 @@ CLAUSES = [
     )
     for kind in CFDP_KINDS
 ] + [
+    Clause(
+        id="C11.filedata_limit",
+        doc="File Data PDU at the 16-bit data-field limit: a setter call that is refused for overflow, followed by valid setter calls - reported length, length field and "
+            "octets are again those of the values the object reports (histories defined in c07.enum_limit)",
+        kind="enum",
+        enum=c07.enum_limit,
+        check=c07.check_limit,
+        classify=lambda c: [c["k"]],
+        required=["grow_metadata", "grow_file_data"],
+        shards={"quick": 8, "thorough": 8},
+    ),
     Clause(
         id="C11.pus_tc",
         doc="PusTc: setters app_data / apid / seq_count / source_id, pack, decode_and_continue",
